@@ -45,3 +45,15 @@ Theorem C18_no_user_data_iff_neither_title_nor_time : forall m,
   build_udta_box m = [] <-> (md_title m = None /\ md_creation_time m = None).
 Proof. exact udta_absent_iff. Qed.
 Print Assumptions C18_no_user_data_iff_neither_title_nor_time.
+
+From Muxide Require Export Model.Writer Model.Api Spec.Checks Spec.HeaderChecks Proofs.EndToEndProofs Proofs.MetaEndToEndProofs.
+(* END TO END: for every configuration and history, the finished file stores the configured title,
+   creation date (ISO-8601 of the supplied Unix time) and language faithfully, has exactly one user-data
+   box iff a title or creation time was set, and every track's media header carries the language
+   (or "und"); no side condition on language, time or durations is needed *)
+Theorem C18_finished_file_metadata_is_faithful : forall b m0 ops m rs s,
+  build b [] = inl m0 -> run m0 ops = (m, rs) -> In (RStats s) rs ->
+  Forall op_payload_ok ops -> len (sink_of m) < 4294967296 ->
+  check_C18 b ops (map class_of rs) (sink_of m) = true.
+Proof. exact finished_file_metadata_general. Qed.
+Print Assumptions C18_finished_file_metadata_is_faithful.
